@@ -588,6 +588,15 @@ func (e *MetaCDC) Create(req *request.CreateRequest) (resp *request.CreateRespon
 		return nil
 	}
 
+	// decode the rpc position before any position is saved, an invalid request should save nothing
+	var rpcDecodePosition *msgpb.MsgPosition
+	if req.RPCChannelInfo.Position != "" {
+		rpcDecodePosition, err = util.Base64DecodeMsgPosition(req.RPCChannelInfo.Position)
+		if err != nil {
+			return nil, servererror.NewServerError(errors.WithMessage(err, "fail to decode the rpc position data"))
+		}
+	}
+
 	if err := handleCollectionPositions(req.CollectionInfos); err != nil {
 		return nil, err
 	}
@@ -600,11 +609,7 @@ func (e *MetaCDC) Create(req *request.CreateRequest) (resp *request.CreateRespon
 
 	// TODO fubang check the same collection when db is different
 
-	if req.RPCChannelInfo.Position != "" {
-		decodePosition, err := util.Base64DecodeMsgPosition(req.RPCChannelInfo.Position)
-		if err != nil {
-			return nil, servererror.NewServerError(errors.WithMessage(err, "fail to decode the rpc position data"))
-		}
+	if rpcDecodePosition != nil {
 		rpcChannel := e.getRPCChannelName(req.RPCChannelInfo)
 
 		metaPosition := &meta.TaskCollectionPosition{
@@ -615,7 +620,7 @@ func (e *MetaCDC) Create(req *request.CreateRequest) (resp *request.CreateRespon
 				rpcChannel: {
 					DataPair: &commonpb.KeyDataPair{
 						Key:  rpcChannel,
-						Data: decodePosition.MsgID,
+						Data: rpcDecodePosition.MsgID,
 					},
 				},
 			},
